@@ -123,8 +123,38 @@ Fixpoint read_lines (ls : list str) (cur : option (Z * str * list (str * dec * s
     end
   end.
 
+(* the lines of the text.  A newline inside a double-quoted string does not end the line:
+   beancount strings may span lines, and knut's parser accepts a newline inside a description
+   (parseQuotedString reads up to the next double quote), which writeTrx prints as it is.  A
+   description never contains a double quote, so quotes come in pairs.  [inq]: inside a string. *)
+Fixpoint split_lines_aux (s cur : str) (inq : bool) : list str :=
+  match s with
+  | [] => [rev cur]
+  | x :: t =>
+    if (x =? 10) && negb inq then rev cur :: split_lines_aux t [] false
+    else split_lines_aux t (x :: cur) (if x =? 34 then negb inq else inq)
+  end.
+Definition split_lines (s : str) : list str := split_lines_aux s [] false.
+
 (* the whole text: the option line with the operating currency, a blank line, the entries *)
 Definition read_ledger (text : str) : option (str * list sentry) :=
+  match split_lines text with
+  | first :: rest =>
+    match strip_prefix s_kw_option first with
+    | Some r =>
+      match strip_last_quote r with
+      | Some v => match read_lines rest None [] with Some es => Some (v, es) | None => None end
+      | None => None
+      end
+    | None => None
+    end
+  | [] => None
+  end.
+
+(* the reader as it was before multi-line descriptions were taken into account: every newline
+   ends a line.  Kept for Properties/C16.v C16_linewise_reader_refuted: it rejects the text of a
+   journal that knut accepts and transcodes correctly. *)
+Definition read_ledger_linewise (text : str) : option (str * list sentry) :=
   match split_on 10 text with
   | first :: rest =>
     match strip_prefix s_kw_option first with
@@ -168,7 +198,12 @@ Fixpoint mem_dated (a : str) (d : Z) (l : list (str * Z)) : bool :=
    (with the open's date), and the accounts that have had a close directive so far *)
 Record bstate := mkBst { st_last : Z; st_open : list (str * Z); st_closed : list str }.
 
-Definition bst_init : bstate := mkBst 0 [] [].
+(* [st_last] starts at 0000-01-01, the least date [read_date] can return (day 0 is 0001-01-01, the
+   dates of the year 0000, which time.Parse and knut accept, are negative day numbers: with 0 here
+   the first entry of a ledger of the year 0000 was reported as out of order,
+   Properties/C16.v C16_order_year0_example) *)
+Definition min_date : Z := -366.
+Definition bst_init : bstate := mkBst min_date [] [].
 
 Definition k_order : str := [111;114;100;101;114].                                           (* order *)
 Definition k_unbalanced : str := [117;110;98;97;108;97;110;99;101;100].                       (* unbalanced *)
